@@ -171,6 +171,7 @@ func (w *world) start() (ok bool) {
 	conf.RestoreCommittedLogs = w.restoreC
 	conf.PreVoteDisabled = w.noPV
 	conf.ShutdownOnRemove = false
+	conf.LeaderLeaseTimeout = 250 * time.Millisecond // (a quarter of the heartbeat timeout; only the leader engine lets it run)
 	w.notify = make(chan bool, 256)
 	conf.NotifyCh = w.notify
 	w.trans = &nullTrans{addr: "11", ch: make(chan raft.RPC)}
